@@ -558,6 +558,11 @@ func (m *DenseInt8Matrix) Import(filename string) error {
       return fmt.Errorf("invalid table")
     }
     for i := 0; i < len(fields); i++ {
+      // integer literals are converted exactly (zero keeps its sign below)
+      if value, err := strconv.ParseInt(fields[i], 10, 64); err == nil && value != 0 {
+        values = append(values, int8(value))
+        continue
+      }
       value, err := strconv.ParseFloat(fields[i], 64)
       if err != nil {
         return fmt.Errorf("invalid table")
